@@ -2,6 +2,7 @@ package main
 
 import (
 	"go/types"
+	"strings"
 )
 
 // Linear resources (buffers, readers, finalizers, ...) are tracked with the
@@ -149,6 +150,33 @@ func (r *FnRun) lockAcquired(st *State, p PtrVal, id Term, mode int) {
 		if g, ok := r.e.cs.Ghosts[n]; ok {
 			old := r.ghostTerm(st, g)
 			st.ghost[g.Name] = r.fresh("G_"+g.Name, old.Sort)
+		}
+		if strings.HasPrefix(n, "map:") {
+			// "map:pkg::T.f": maps of the type of field f are forgotten when a
+			// lock inside an object of type T is taken
+			spec := strings.TrimPrefix(n, "map:")
+			i := strings.LastIndex(spec, ".")
+			if i < 0 || p.Kind != pkHeap {
+				continue
+			}
+			tn, field := spec[:i], spec[i+1:]
+			nt := r.e.namedType(p.Root)
+			if nt == nil {
+				continue
+			}
+			named, ok := types.Unalias(nt).(*types.Named)
+			if !ok || named.Obj().Pkg() == nil || named.Obj().Pkg().Path()+"::"+named.Obj().Name() != tn {
+				continue
+			}
+			if stt, ok := under(nt).(*types.Struct); ok {
+				for j := 0; j < stt.NumFields(); j++ {
+					if stt.Field(j).Name() == field {
+						if _, ok := under(stt.Field(j).Type()).(*types.Map); ok {
+							r.havocInferred(st, "map:"+typeKey(stt.Field(j).Type())+"|")
+						}
+					}
+				}
+			}
 		}
 	}
 }
